@@ -402,3 +402,40 @@ def api_input_size(f: int, n: int) -> bool:
     if n <= L_DATA:
         return code == 200 and len(pubs) == 1
     return code == 400 and v.get("__type") == "InvalidExecutionInput" and not pubs
+
+
+PAYLOADS = ['{"k": 1}', "{", '{"a":}', 5, None, {"a": 1}, [1], True, ""]
+
+
+@condition(timeout={"quick": 120, "thorough": 300}, functions=["rest_api_asyncio: aws_api_StartExecution / aws_api_StartSyncExecution (input), aws_api_SendTaskSuccess (output): documented validation error for a payload that is not the JSON text of a value"],
+           outside=["the blocking front end has neither StartSyncExecution nor SendTaskSuccess"])
+def api_payload_validation(action: int, pi: int, absent: bool) -> bool:
+    """
+    requires: 0 <= action < 3 and 0 <= pi < len(PAYLOADS)
+    ensures: _
+    """
+    import vh_c15 as c15
+    fe = api.FE[0]; fe.reset(False)
+    sm = api.sm_arn("m1")
+    fe.engine.asl_store[sm] = {"definition": dict(ASL_OK), "name": "m1", "roleArn": api.ROLE1, "stateMachineArn": sm,
+                               "type": "EXPRESS" if action == 1 else "STANDARD", "creationDate": 1.0, "updateDate": 1.0, "status": "ACTIVE"}
+    p = stubs.pick(PAYLOADS, pi)
+    valid = isinstance(p, str) and p == '{"k": 1}'
+    if action == 2:
+        members = {"taskToken": c15.GOOD}
+        if not absent: members["output"] = p
+        name, err = "SendTaskSuccess", "InvalidOutput"
+    else:
+        members = {"stateMachineArn": sm}
+        if not absent: members["input"] = p
+        name, err = ("StartExecution" if action == 0 else "StartSyncExecution"), "InvalidExecutionInput"
+    v, code = fe.call("AWSStepFunctions." + name, api.CT, stubs.FastJson.dumps(members).encode())
+    if code == 500:
+        return False
+    if absent:
+        return code in (200, 599) if action != 2 else code == 400          # input defaults to {}; an output is required
+    if valid:
+        return code in (200, 599)                                          # 599: StartSyncExecution suspended waiting for the execution
+    if action == 2 and (p is None or p == ""):
+        return code == 400                                                 # treated as "output missing"
+    return code == 400 and isinstance(v, dict) and v.get("__type") == err
